@@ -104,7 +104,9 @@ def contributions(result, f, adm):
 def observe(call, ff, ZZ, adm):
     """ALL library calls of one run (the test itself and reading its result); raises whatever the library raises"""
     r = call(ff, ZZ)
-    return {"residuals": np.asarray(r.residuals), "pseudo_chisqr": float(r.pseudo_chisqr), "frequencies": np.asarray(r.frequencies),
+    if adm is None:
+        adm = bool(r.admittance)
+    return {"admittance": bool(r.admittance), "residuals": np.asarray(r.residuals), "pseudo_chisqr": float(r.pseudo_chisqr), "frequencies": np.asarray(r.frequencies),
             "time_constants": np.asarray(r.time_constants), "contributions": contributions(r, r.frequencies, adm)}
 
 
@@ -132,6 +134,9 @@ def contributions(r, ff):
     return np.array(rows)
 def run(ff, ZZ):
     r = pyimpspec.perform_kramers_kronig_test(pyimpspec.DataSet(ff, ZZ), **kw)
+    global adm
+    if adm is None:
+        adm = bool(r.admittance)      # admittance=None: the library picks the representation; the pick of the reference run is the reference
     return r, np.asarray(r.residuals), float(r.pseudo_chisqr), np.asarray(r.time_constants), contributions(r, r.frequencies)
 try:
     base, rb, chib, taub, cb = run(f, Z)
@@ -140,6 +145,7 @@ except Exception as ex:
     sys.exit(0)
 f2, Z2 = {{"zscale": (f, {c!r} * Z), "fscale": ({c!r} * f, Z), "reversed": (f[::-1], Z[::-1])}}[{kind!r}]
 other, ro, chio, tauo, co = run(f2, Z2)      # an exception here reproduces the violation: the reference run completed
+assert bool(other.admittance) == bool(base.admittance), f"representation picked: admittance={{base.admittance}} for the original, {{other.admittance}} for the transformed spectrum"
 d = ro - rb
 dres = max(np.abs(d.real).max(), np.abs(d.imag).max())
 dchi = abs(np.log10(chio) - np.log10(chib))
@@ -157,7 +163,7 @@ def run_variant(arg):
     name, f, Z, n, desc, test, adm, addC, addL, lf, tfs = arg
     kw = dict(test=test, num_RC=n, log_F_ext=lf, admittance=adm, add_capacitance=addC, add_inductance=addL)
     cols = {(False, False): "no-C-no-L", (True, False): "C-column", (False, True): "L-column", (True, True): "C+L-columns"}[(addC, addL)]
-    xy = "Y" if adm else "Z"
+    xy = "auto" if adm is None else ("Y" if adm else "Z")
     cfg = f"{desc}; test={test!r}, admittance={adm}, add_capacitance={addC}, add_inductance={addL}, num_RC={n}, log_F_ext={lf}"
     recs = []
 
@@ -170,6 +176,16 @@ def run_variant(arg):
                  "note": f"reference run raised {type(ex).__name__}: {str(ex)[:120]}"}]
     cb = base["contributions"]
     nontrivial = bool(np.abs(base["residuals"]).max() > 1e-9)
+    if adm is None:
+        # the library picks the representation: only spectra where the two candidates are clearly apart are asserted (a near tie
+        # may legitimately go either way within rounding)
+        try:
+            chis = [float(pyimpspec.perform_kramers_kronig_test(pyimpspec.DataSet(f, Z), num_F_ext_evaluations=0, num_procs=1, **dict(kw, admittance=x)).pseudo_chisqr) for x in (False, True)]
+        except Exception:  # noqa
+            chis = [1.0, 1.0]
+        if abs(np.log10(chis[0]) - np.log10(chis[1])) < 1e-2:
+            return [{"key": (name, test, adm, addC, addL, lf, "near-tie"), "nontrivial": False, "fails": [], "m": None, "note": f"pseudo chi-squared of Z and Y within 2 %: {chis}"}]
+        adm = base["admittance"]
     for kind, c in tfs:
         rec = {"key": (name, test, adm, addC, addL, lf, kind, c), "nontrivial": nontrivial, "fails": [], "m": None, "kind": kind, "c": c,
                "variant": (test, xy, cols)}
@@ -183,6 +199,13 @@ def run_variant(arg):
             rec["fails"].append((f"{label}:{cols}:{test}:{xy}:raises {type(ex).__name__}", "perform_kramers_kronig_test",
                                  f"{cfg}: with {how} the test (or reading its result) raised {type(ex).__name__}: {str(ex)[:300]}, while the untransformed spectrum ran to completion",
                                  repro_src(f, Z, kind, c, kw, f"raises {type(ex).__name__}")))
+            recs.append(rec)
+            continue
+        if other["admittance"] != base["admittance"]:
+            rec["fails"].append((f"{label}:{cols}:{test}:{xy}:representation", "perform_kramers_kronig_test",
+                                 f"{cfg}: with {how} the test reports the {'admittance' if other['admittance'] else 'impedance'} representation (pseudo_chisqr {other['pseudo_chisqr']:.4e}) "
+                                 f"while the untransformed spectrum is reported on the {'admittance' if base['admittance'] else 'impedance'} representation (pseudo_chisqr {base['pseudo_chisqr']:.4e})",
+                                 repro_src(f, Z, kind, c, kw, "representation")))
             recs.append(rec)
             continue
         with np.errstate(all="ignore"):
@@ -225,6 +248,10 @@ def main(a):
                     for addL in ((True,) if test.endswith("-inv") else (False, True)):
                         for lf in lfs:
                             args.append((name, f, Z, n, desc, test, adm, addC, addL, lf, tfs))
+    # admittance=None with a fixed number of RC elements: the library tests both representations and reports one of them
+    for (name, f, Z, n, desc) in data:
+        for test in (("complex", "real-inv") if not thorough else LINEAR_TESTS):
+            args.append((name, f, Z, n, desc, test, None, True, True, 0.0, tfs))
     units = unit_spectra()      # both tiers, seed-independent: no C/L columns (the -inv tests cannot run without the inductance column)
     for (name, uf, uZ, n, desc, adms, utfs) in units:
         for test in LINEAR_TESTS:
